@@ -252,7 +252,7 @@ def run_property(prop, tier, seed, only=None, dump=None):
         if hit is None and rf is not None and not match_known(known, u.short, rf['native']['failed'][0]):
             hit = {'obligation': (names or ['?'])[0], 'inputs': rf['inputs'], 'native': rf['native'], 'sizes': 'random',
                    'history': rf.get('history'), 'history_kind': rf.get('history_kind')}
-        if hit is None and (tier == 'thorough' or res.error):
+        if hit is None and (tier == 'thorough' or res.error or unknown_to_known):
             # nothing decided by proof for this function: search the run-time contract harder (histories included)
             rf2, t2 = U.random_falsify(u, seed + 1, 3000 if tier == 'thorough' else 600)
             cross['inputs'] += t2
@@ -287,7 +287,8 @@ def run_property(prop, tier, seed, only=None, dump=None):
         if not still:
             continue
         locked = set(lk.get('obligations', []))
-        sem = [n for n in still if U.is_semantic(n) and n in locked]
+        kinds = {o.name: o.kind for o in res.obls}       # names of enumerated cases carry a [case] prefix: classify by kind
+        sem = [n for n in still if U.is_semantic(kinds.get(n, n)) and n in locked]
         if sem:
             solver_out = {n: [o.as_dict() for o in res.obls if o.name == n][0] for n in sem}
             path = write_replay(prop, u.short, dict(property=prop, unit=u.short, qualname=u.key,
